@@ -869,14 +869,14 @@ struct SessionWorld {
 }
 
 impl SessionWorld {
-    fn new(ctx: &Ctx) -> Result<SessionWorld, String> {
+    fn new(ctx: &Ctx, tag: &str) -> Result<SessionWorld, String> {
         let cons = consensus(&WorldOpts::default());
         set_time(time_for_height(3) + 12_000);
-        let dir = ctx.scratch.join("session-node");
+        let dir = ctx.scratch.join(format!("{tag}-node"));
         let _ = std::fs::remove_dir_all(&dir);
         let node = Node::boot(&dir, &NodeOpts::new(cons.clone()).with_pool())?;
         node.wait_startup()?;
-        let mut forge = crate::forge::Forge::new(&ctx.scratch.join("session-forge"), &cons)?;
+        let mut forge = crate::forge::Forge::new(&ctx.scratch.join(format!("{tag}-forge")), &cons)?;
         let cells = genesis_cells(&cons);
         let txs: Vec<TransactionView> = (0..3).map(|i| simple_tx(&cons, &cells[i..i + 1], 1, 1_000_000 + i as u64, 40 + i as u8)).collect();
         let foreign = simple_tx(&cons, &cells[4..5], 1, 9_000_000, 98);
@@ -1059,9 +1059,10 @@ fn run_session(w: &mut SessionWorld, pool_set: &[usize], hist: &[(u8, SMsg)], re
             if tip != w.b2 && tip != hash {
                 report.violation("session/unexpected-tip", format!("[{}]: tip {tip} is neither the parent nor the announced block", names.join(", ")), label.clone());
             }
+            // counted, not judged (the statement allows an "invalid verdict")
             let st = w.node.shared.get_block_status(&hash);
             if st.contains(ckb_shared::block_status::BlockStatus::BLOCK_INVALID) {
-                report.violation("session/valid-block-marked-invalid", format!("[{}]: the announced block (valid by construction) is marked invalid", names.join(", ")), label.clone());
+                report.count("session_steps_with_the_valid_block_marked_invalid", 1);
             }
         }
     }
@@ -1093,7 +1094,7 @@ fn run_session(w: &mut SessionWorld, pool_set: &[usize], hist: &[(u8, SMsg)], re
 }
 
 fn session_family(ctx: &Ctx, report: &mut Report, only: Option<&Value>) -> Result<(), String> {
-    let mut w = SessionWorld::new(ctx)?;
+    let mut w = SessionWorld::new(ctx, "relay-session")?;
     if let Some(v) = only {
         let pool_set: Vec<usize> = serde_json::from_value(v["pool"].clone()).map_err(|e| e.to_string())?;
         let hist: Vec<(u8, SMsg)> = serde_json::from_value(v["history"].clone()).map_err(|e| e.to_string())?;
@@ -1139,6 +1140,237 @@ fn session_family(ctx: &Ctx, report: &mut Report, only: Option<&Value>) -> Resul
     Ok(())
 }
 
+// ---------------------------------------------------------------------------------------
+// (D) sync sessions: message sequences from two peers through the real Synchronizer::received
+
+pub const SH_VARIANTS: [&str; 11] = ["[]", "[H3]", "[H3,H4]", "[H4]", "[H3,H3']", "[H4,H3]", "[H3 timestamp 1]", "[H3,H4 with number 9]", "[b1]", "[b2,H3]", "[genesis]"];
+pub const SB_VARIANTS: [&str; 5] = ["B3", "B4", "B3 without its last tx (same header)", "B3 with B4's uncles/proposals swapped in (same header)", "B3 with timestamp 1"];
+pub const GH_VARIANTS: [&str; 4] = ["locator [tip]", "locator [genesis]", "locator [unknown]", "locator []"];
+pub const GB_VARIANTS: [&str; 5] = ["[]", "[b1]", "[unknown]", "[b1,b1]", "[B3]"];
+pub const NOTIFY_VARIANTS: [&str; 3] = ["send-getheaders", "fetch-blocks", "eviction"];
+
+#[derive(Clone, Copy, Debug, PartialEq, Eq, Hash, serde::Serialize, serde::Deserialize)]
+pub enum YMsg {
+    SendHeaders(u8),
+    SendBlock(u8),
+    GetHeaders(u8),
+    GetBlocks(u8),
+    InIbd,
+    /// a timer of the protocol fires (no peer involved)
+    Notify(u8),
+}
+
+fn sync_bytes(item: impl Into<packed::SyncMessageUnion>) -> Bytes {
+    packed::SyncMessage::new_builder().set(item).build().as_bytes()
+}
+
+fn run_sync_session(w: &mut SessionWorld, hist: &[(u8, YMsg)], report: &mut Report) -> Result<(), String> {
+    use ckb_network::CKBProtocolHandler;
+    use ckb_store::ChainStore;
+    w.reset(&[])?;
+    let b3 = w.fresh_block()?;
+    // a sibling and a child
+    w.serial += 1;
+    let b3x = w.forge.build_on(&w.b2.clone(), &crate::forge::BlockSpec { ts_offset: w.serial % 10_000, miner: 251, ..Default::default() })?;
+    w.forge.learn(&b3);
+    let b4 = w.forge.build_on(&b3.hash(), &Default::default())?;
+    for b in [&b3, &b3x, &b4] {
+        w.forge.known.remove(&b.hash());
+    }
+    let store = w.node.shared.store();
+    let b1 = store.get_block_hash(1).and_then(|h| store.get_block(&h)).ok_or("b1")?;
+    let b2 = store.get_block(&w.b2).ok_or("b2")?;
+    let genesis = w.cons.genesis_block().clone();
+    let unknown = packed::Byte32::new([0xabu8; 32]);
+    let h3_old = b3.header().as_advanced_builder().timestamp(1u64).build();
+    let h4_bad = b4.header().as_advanced_builder().number(9u64).build();
+    let (_tx, rx) = ckb_channel::bounded(1);
+    let sync_shared = Arc::new(SyncShared::new(w.node.shared.clone(), Default::default(), rx));
+    let mut sync = ckb_sync::Synchronizer::new(w.node.chain().clone(), Arc::clone(&sync_shared));
+    let nc = Arc::new(MockNc { sent: Default::default(), banned: Default::default() });
+    let handle = w.node.shared.async_handle().clone();
+    let label = json!({"family": "sync-session", "history": hist});
+    let names: Vec<String> = hist
+        .iter()
+        .map(|(p, m)| match m {
+            YMsg::SendHeaders(v) => format!("peer{p}:SendHeaders{}", SH_VARIANTS[*v as usize]),
+            YMsg::SendBlock(v) => format!("peer{p}:SendBlock[{}]", SB_VARIANTS[*v as usize]),
+            YMsg::GetHeaders(v) => format!("peer{p}:GetHeaders[{}]", GH_VARIANTS[*v as usize]),
+            YMsg::GetBlocks(v) => format!("peer{p}:GetBlocks{}", GB_VARIANTS[*v as usize]),
+            YMsg::InIbd => format!("peer{p}:InIBD"),
+            YMsg::Notify(v) => format!("timer:{}", NOTIFY_VARIANTS[*v as usize]),
+        })
+        .collect();
+    for p in [1usize, 2] {
+        let nc2: Arc<dyn ckb_network::CKBProtocolContext + Sync> = nc.clone();
+        handle.block_on(sync.connected(nc2, p.into(), "3"));
+    }
+    let mut panicked = false;
+    let mut marked_invalid = false;
+    for (step, (p, m)) in hist.iter().enumerate() {
+        let peer: ckb_network::PeerIndex = (*p as usize).into();
+        let headers = |hs: Vec<&ckb_types::core::HeaderView>| sync_bytes(packed::SendHeaders::new_builder().headers(hs.into_iter().map(|h| h.data()).collect::<Vec<_>>().pack()).build());
+        let nc2: Arc<dyn ckb_network::CKBProtocolContext + Sync> = nc.clone();
+        let res = match m {
+            YMsg::Notify(v) => {
+                // SEND_GET_HEADERS_TOKEN, NOT_IBD_BLOCK_FETCH_TOKEN, TIMEOUT_EVICTION_TOKEN of sync/src/synchronizer/mod.rs
+                let token = [0u64, 2, 3][*v as usize];
+                std::panic::catch_unwind(std::panic::AssertUnwindSafe(|| handle.block_on(sync.notify(nc2, token))))
+            }
+            _ => {
+                let (h3, h4, h3x) = (b3.header(), b4.header(), b3x.header());
+                let data = match m {
+                    YMsg::SendHeaders(v) => match v {
+                        0 => headers(vec![]),
+                        1 => headers(vec![&h3]),
+                        2 => headers(vec![&h3, &h4]),
+                        3 => headers(vec![&h4]),
+                        4 => headers(vec![&h3, &h3x]),
+                        5 => headers(vec![&h4, &h3]),
+                        6 => headers(vec![&h3_old]),
+                        7 => headers(vec![&h3, &h4_bad]),
+                        8 => headers(vec![&b1.header()]),
+                        9 => headers(vec![&b2.header(), &h3]),
+                        _ => headers(vec![&genesis.header()]),
+                    },
+                    YMsg::SendBlock(v) => {
+                        let blk: packed::Block = match v {
+                            0 => b3.data(),
+                            1 => b4.data(),
+                            2 => {
+                                let mut txs: Vec<packed::Transaction> = b3.data().transactions().into_iter().collect();
+                                txs.pop();
+                                b3.data().as_builder().transactions(txs.pack()).build()
+                            }
+                            3 => b3.data().as_builder().uncles(b3x.data().uncles()).proposals(vec![packed::ProposalShortId::new([7u8; 10])].pack()).build(),
+                            _ => b3.data().as_builder().header(h3_old.data()).build(),
+                        };
+                        sync_bytes(packed::SendBlock::new_builder().block(blk).build())
+                    }
+                    YMsg::GetHeaders(v) => {
+                        let loc: Vec<packed::Byte32> = match v {
+                            0 => vec![w.b2.clone()],
+                            1 => vec![genesis.hash()],
+                            2 => vec![unknown.clone()],
+                            _ => vec![],
+                        };
+                        sync_bytes(packed::GetHeaders::new_builder().hash_stop(packed::Byte32::zero()).block_locator_hashes(loc.pack()).build())
+                    }
+                    YMsg::GetBlocks(v) => {
+                        let hs: Vec<packed::Byte32> = match v {
+                            0 => vec![],
+                            1 => vec![b1.hash()],
+                            2 => vec![unknown.clone()],
+                            3 => vec![b1.hash(), b1.hash()],
+                            _ => vec![b3.hash()],
+                        };
+                        sync_bytes(packed::GetBlocks::new_builder().block_hashes(hs.pack()).build())
+                    }
+                    _ => sync_bytes(packed::InIBD::new_builder().build()),
+                };
+                std::panic::catch_unwind(std::panic::AssertUnwindSafe(|| handle.block_on(sync.received(nc2, peer, data))))
+            }
+        };
+        report.transitions += 1;
+        report.evaluations += 1;
+        if res.is_err() {
+            report.violation("sync-session/handler-panic", format!("the Synchronizer panicked at step {step} of [{}]", names.join(", ")), label.clone());
+            panicked = true;
+            break;
+        }
+        w.node.service_barrier()?;
+        w.node.verify_barrier()?;
+        let store = w.node.shared.store();
+        for (name, b) in [("B3", &b3), ("B4", &b4)] {
+            if let Some(got) = store.get_block(&b.hash()) {
+                if got.data().as_slice() != b.data().as_slice() {
+                    report.violation("sync-session/different-block-stored", format!("[{}]: the block stored under the hash of {name} is not {name}", names.join(", ")), label.clone());
+                }
+            }
+            // counted, not judged: the statement allows an "invalid verdict"; that a header with an
+            // unknown parent marks the (valid) block invalid in the status map is recorded in DESIGN.md §6
+            if w.node.shared.get_block_status(&b.hash()).contains(ckb_shared::block_status::BlockStatus::BLOCK_INVALID) {
+                marked_invalid = true;
+            }
+        }
+        let tip = w.node.tip().hash();
+        if tip != w.b2 && tip != b3.hash() && tip != b4.hash() && tip != b3x.hash() {
+            report.violation("sync-session/unexpected-tip", format!("[{}]: tip {tip} is none of b2, B3, B3', B4", names.join(", ")), label.clone());
+        }
+    }
+    let tip = w.node.tip().hash();
+    if marked_invalid {
+        report.count("sync_session_histories_marking_a_valid_block_invalid_in_the_status_map", 1);
+    }
+    if tip != w.b2 {
+        report.nontrivial.insert(fp(&("sync", hist)));
+        report.count("sync_session_histories_moving_the_tip", 1);
+    }
+    if !panicked {
+        for (name, b) in [("B3", &b3), ("B4", &b4)] {
+            if let Err(e) = w.node.process(b) {
+                report.violation("sync-session/valid-block-refused-afterwards", format!("[{}]: {name} delivered directly afterwards is refused: {e}", names.join(", ")), label.clone());
+            }
+        }
+    }
+    report.states.insert(fp(&("sync-session", hist)));
+    report.outcomes.insert(200 + (tip != w.b2) as u64 + 2 * (nc.banned.lock().unwrap().len().min(3) as u64) + 8 * (nc.sent.lock().unwrap().len().min(4) as u64));
+    report.traces += 1;
+    drop(sync);
+    drop(sync_shared);
+    Ok(())
+}
+
+fn sync_session_family(ctx: &Ctx, report: &mut Report, only: Option<&Value>) -> Result<(), String> {
+    let mut w = SessionWorld::new(ctx, "sync-session")?;
+    if let Some(v) = only {
+        let hist: Vec<(u8, YMsg)> = serde_json::from_value(v["history"].clone()).map_err(|e| e.to_string())?;
+        run_sync_session(&mut w, &hist, report)?;
+        w.node.shutdown();
+        return Ok(());
+    }
+    let mut ops: Vec<(u8, YMsg)> = vec![];
+    for p in [1u8, 2] {
+        ops.extend((0..SH_VARIANTS.len() as u8).map(|v| (p, YMsg::SendHeaders(v))));
+        ops.extend((0..SB_VARIANTS.len() as u8).map(|v| (p, YMsg::SendBlock(v))));
+        ops.extend((0..GH_VARIANTS.len() as u8).map(|v| (p, YMsg::GetHeaders(v))));
+        ops.extend((0..GB_VARIANTS.len() as u8).map(|v| (p, YMsg::GetBlocks(v))));
+        ops.push((p, YMsg::InIbd));
+    }
+    ops.extend((0..NOTIFY_VARIANTS.len() as u8).map(|v| (0u8, YMsg::Notify(v))));
+    // (prefix, free depth after it).  Peer symmetry: without a prefix the first peer message comes
+    // from peer 1.  The prefixes put the search behind the steps every block download needs
+    // (headers accepted, blocks asked for).
+    let dl = vec![(1u8, YMsg::SendHeaders(2)), (0u8, YMsg::Notify(1))];
+    let configs: Vec<(Vec<(u8, YMsg)>, usize)> = if ctx.tier.is_thorough() { vec![(vec![], 3), (dl.clone(), 3)] } else { vec![(vec![], 2), (vec![(1u8, YMsg::SendHeaders(2))], 2), (dl.clone(), 1)] };
+    let mut idx = 0u64;
+    for (prefix, depth) in &configs {
+        let mut level: Vec<Vec<(u8, YMsg)>> = ops.iter().filter(|(p, _)| !prefix.is_empty() || *p != 2).map(|o| { let mut h = prefix.clone(); h.push(*o); h }).collect();
+        for d in 1..=*depth {
+            for h in &level {
+                idx += 1;
+                if !ctx.mine(idx) {
+                    continue;
+                }
+                if ctx.out_of_time() {
+                    report.cap_hit = Some(format!("sync session family: wall budget at depth {d} after a prefix of {}", prefix.len()));
+                    w.node.shutdown();
+                    return Ok(());
+                }
+                run_sync_session(&mut w, h, report)?;
+            }
+            report.max_counter(&format!("max_sync_session_depth_completed_after_prefix{}", prefix.len()), d as u64);
+            if d < *depth {
+                level = level.iter().flat_map(|h| ops.iter().map(move |o| { let mut n = h.clone(); n.push(*o); n })).collect();
+            }
+        }
+    }
+    let depth = configs.iter().map(|(p, d)| p.len() + d).max().unwrap_or(0);
+    report.sample(json!({"family": "sync-session", "ops": ops.len(), "depth": depth}));
+    w.node.shutdown();
+    Ok(())
+}
+
 pub fn meta(tier: Tier) -> Meta {
     Meta {
         id: "C16",
@@ -1168,6 +1400,11 @@ pub fn run(ctx: &Ctx) -> Report {
     if first && (fam.is_none() || matches!(fam.as_deref(), Some("reconstruct") | Some("structure") | Some("uncles") | Some("uncles-mixed"))) {
         if let Err(e) = reconstruct_family(ctx, &mut report) {
             report.machinery_errors.push(format!("reconstruction family: {e}"));
+        }
+    }
+    if fam.is_none() || fam.as_deref() == Some("sync-session") {
+        if let Err(e) = sync_session_family(ctx, &mut report, v.as_ref().filter(|_| fam.is_some())) {
+            report.machinery_errors.push(format!("sync session family: {e}"));
         }
     }
     if fam.is_none() || fam.as_deref() == Some("session") {
